@@ -286,6 +286,20 @@ def _handler_battery():
     return ''.join(map(str, answers))
 
 
+def _levels_battery():
+    """what a program sees of a supply does not depend on supplies that somebody declared (in
+    another spelling) and dropped before - whether the collector has got to them or not"""
+    from usim import Resources, Capacities
+    seen = []
+    for cls in (Resources, Capacities):
+        cls(memory=1, cores=2, disk=3)                  # dropped at once
+        junk = [[number] for number in range(300)]      # unrelated allocations
+        supply = cls(cores=2, disk=3, memory=1)
+        seen.append([name for name, _ in supply.levels])
+        del junk
+    return seen
+
+
 def build_single(seed, index):
     """a program for callers that run one simulation per program"""
     program = build(seed, index)
@@ -324,6 +338,7 @@ def run_once(program, perturb=0):
     # own, made afresh in every run (their addresses, hence the order of sets of them, differ
     # from run to run and from configuration to configuration)
     lines.append('handlers:%s' % (_handler_battery(),))
+    lines.append('levels:%s' % (_levels_battery(),))
     digest = hashlib.sha1('\n'.join(lines).encode()).hexdigest()
     # The activation trace that is compared is that of the program's own activities. Helper
     # coroutines of the library (the observer of a connective, the trigger of a date) are not
